@@ -105,6 +105,23 @@ def run(ctx):
                                            "case": deep[k2], "results": sorted(vals2),
                                            "replay_cmd": "printf '%s\\n%s\\n' | %s verif search | grep RESULT | cut -c1-120" % (deep[k2], deep[k2], C.ENGINE)})
                 violations.append({"replay": rp})
+        # a search that stores MILLIONS of positions (seeded change r6C16: a cache bounded at 2^20 entries whose eviction order depends
+        # on a randomly seeded std HashSet — only a search beyond that size differs, and only between runs): once in each of two
+        # processes running at the same time
+        big = "2r2b2/5p2/5k2/p1r1pP2/P2pB3/1P3P2/K1P3R1/7R w - - 23 93 |  | d%dq" % (8 if ctx["tier"] == "quick" else 9)
+        from concurrent.futures import ThreadPoolExecutor
+        with ThreadPoolExecutor(max_workers=2) as ex:
+            outs = list(ex.map(lambda _: C.driver(["search"], big + "\n", timeout=3000), range(2)))
+        bsig = []
+        for rc, so, se in outs:
+            res = [l for l in so.splitlines() if l.startswith("RESULT ")]
+            bsig.append(res[0].split('"best":')[1].split(',"writes"')[0] if res else None)
+        cov["big_table_search"] = {"case": big, "results": bsig}
+        if bsig[0] is None or bsig[0] != bsig[1]:
+            rp = C.write_replay(prop, {"kind": "a fixed-depth search from an empty cache that stores millions of positions gave different results in two processes",
+                                       "case": big, "results": bsig,
+                                       "replay_cmd": "for i in 1 2; do printf '%s\\n' | %s verif search | grep RESULT | cut -c1-160; done" % (big, C.ENGINE)})
+            violations.append({"replay": rp})
         cov["deep_repeat_searches"] = len(flat)
         cov["repeat_runs"] = runs
         # the built-in bench (the signature the property names): two processes at the same time (quick), plus two more one after
